@@ -54,7 +54,41 @@ def build(g, n, autokwd):
     return mm, s1, s2, a1, f1, a2, f2
 
 
-def compare_real(mm, t1, t2):
+def grammar_literals(g):
+    from .. import gram
+    out = set()
+    for name, params, body in g['rules']:
+        for x in gram.subexprs(body):
+            if x[0] == 'str':
+                out.add(x[1])
+    return out
+
+
+def verbatim_problem(g, canon, text):
+    """every string value is the text as written in its own input (regex / ID / STRING matches), or the
+    grammar's spelling of a string literal (string matches are reported as spelled in the grammar)"""
+    lits = grammar_literals(g) if g is not None else set()
+
+    def walk(x):
+        if isinstance(x, dict):
+            for k, v in x.items():
+                if k.startswith('_'):
+                    continue
+                r = walk(v)
+                if r:
+                    return r
+        elif isinstance(x, (list, tuple)):
+            for v in x:
+                r = walk(v)
+                if r:
+                    return r
+        elif isinstance(x, str) and x and x not in text and x not in lits and chr(92) not in text:
+            return x
+        return None
+    return walk(canon)
+
+
+def compare_real(mm, t1, t2, g=None):
     k1, m1 = real_load(mm, t1)
     k2, m2 = real_load(mm, t2)
     if (k1 == 'syntax') != (k2 == 'syntax'):
@@ -73,6 +107,10 @@ def compare_real(mm, t1, t2):
         return x
     if not modelcmp.same(low(c1), low(c2)):
         return True, 'models differ: %s' % modelcmp.first_diff(low(c1), low(c2))
+    for c, t in ((c1, t1), (c2, t2)):
+        v = verbatim_problem(g, c, t)
+        if v is not None:
+            return True, 'the value %r does not appear in its input %r' % (v, t)
     return False, 'ok'
 
 
@@ -96,7 +134,7 @@ def obligation(item):
     res['twin'] = z.check(And(a1, differs)) if n else z.check(a1)
     if res['twin'] == 'sat' and n:
         t1, t2 = s1.decode(z.model()), s2.decode(z.model())
-        bad, detail = compare_real(mm, t1, t2)
+        bad, detail = compare_real(mm, t1, t2, g)
         res['validated'] += 2
         if bad:
             res['violations'].append({'grammar': g['name'], 'autokwd': autokwd, 's': t1, 's2': t2, 'detail': detail})
@@ -110,7 +148,7 @@ def obligation(item):
             res['verdict'] = 'holds' if r == 'unsat' else 'unknown'
             break
         t1, t2 = s1.decode(z.model()), s2.decode(z.model())
-        bad, detail = compare_real(mm, t1, t2)
+        bad, detail = compare_real(mm, t1, t2, g)
         res['validated'] += 2
         tries += 1
         if bad:
@@ -178,4 +216,4 @@ def replay(data):
     g = next(x for x in corpus.ALL if x['name'] == data['grammar'])
     pegcheck.build_mm(g, ignore_case=False, autokwd=data['autokwd'])
     mm = pegcheck.build_mm(g, ignore_case=True, autokwd=data['autokwd'])
-    return compare_real(mm, data['s'], data['s2'])
+    return compare_real(mm, data['s'], data['s2'], g)
